@@ -6,6 +6,8 @@ from .c01 import FUNCS
 
 
 def run(chk):
+    from .misc_contracts import named_serdes
+    named_serdes(chk, "C02")   # pass-through (callback results) and plain JSON (invoke payloads / results): the round trips replay relies on
     chk.assume("B1: an accepted SUCCEED/FAIL yields a record with result = payload / error = the update's error (wire codec round trip: C20)")
     chk.assume("RT(S, v): deserialize(S, serialize(S, v)) == v with equal types - proved for the default serializer in C15 on its exact round-trip domain; a named hypothesis for custom SerDes")
     chk.assume("U: user code lets invocation-level errors (InvocationError, StepInterruptedError) propagate; they are not observations of user code")
